@@ -522,10 +522,120 @@ func genBursts(t *rapid.T) BurstCase {
 	return c
 }
 
+// StopBacklog: Stop arrives while the pool is saturated - every worker runs a task that waits for one of the
+// tasks still queued, the dispatcher itself is inside a task it had to run inline - and a backlog of tasks
+// that were handed over (Go returned) before Stop sits in the queue. Each of them still has to run exactly
+// once; nothing else can run them, because the busy workers wait for them.
+type StopBacklog struct {
+	M         int `json:"max_concurrent"`
+	Backlog   int `json:"backlog"`
+	WaitFor   int `json:"holders_wait_for"` // index of the backlog task the holders wait for (-1 = the last)
+	ReleaseUs int `json:"release_after_stop_us"`
+}
+
+func runStopBacklog(c StopBacklog) vlib.Result {
+	vlib.Logs.Take()
+	res := vlib.Result{Classes: []string{"stop-backlog", fmt.Sprintf("m=%d", c.M)}}
+	p := taskpool.New(c.M, 64)
+	stopped := false
+	defer func() {
+		if !stopped {
+			p.Stop()
+		}
+	}()
+	waitIdx := c.WaitFor
+	if waitIdx < 0 || waitIdx >= c.Backlog {
+		waitIdx = c.Backlog - 1
+	}
+	target := make(chan struct{}) // closed when the awaited backlog task has run
+	gateC := make(chan struct{})
+	var started int32
+	var holdersDone, cDone int32
+	holders := c.M - 2
+	for i := 0; i < holders; i++ {
+		p.Go(func() {
+			atomic.AddInt32(&started, 1)
+			select {
+			case <-target:
+			case <-time.After(8 * time.Second):
+			}
+			atomic.AddInt32(&holdersDone, 1)
+		})
+	}
+	if !vlib.WaitUntil(2*time.Second, func() bool { return atomic.LoadInt32(&started) == int32(holders) }) {
+		res.Classes = append(res.Classes, "holders-did-not-all-start (skipped)")
+		close(target)
+		close(gateC)
+		return res
+	}
+	// all workers are busy: this one is queued and then run by the dispatcher itself
+	var cStarted int32
+	p.Go(func() {
+		atomic.StoreInt32(&cStarted, 1)
+		<-gateC
+		atomic.StoreInt32(&cDone, 1)
+	})
+	if !vlib.WaitUntil(2*time.Second, func() bool { return atomic.LoadInt32(&cStarted) == 1 }) {
+		res.Classes = append(res.Classes, "dispatcher-task-did-not-start (skipped)")
+		close(target)
+		close(gateC)
+		return res
+	}
+	runs := make([]int32, c.Backlog)
+	for i := 0; i < c.Backlog; i++ {
+		i := i
+		p.Go(func() {
+			if atomic.AddInt32(&runs[i], 1) == 1 && i == waitIdx {
+				close(target)
+			}
+		})
+	}
+	// every Go call has returned: the tasks were handed to the pool before Stop
+	stopped = true
+	p.Stop()
+	time.Sleep(time.Duration(c.ReleaseUs) * time.Microsecond)
+	close(gateC)
+	ok := vlib.WaitUntil(5*time.Second, func() bool {
+		for i := range runs {
+			if atomic.LoadInt32(&runs[i]) == 0 {
+				return false
+			}
+		}
+		return atomic.LoadInt32(&holdersDone) == int32(holders) && atomic.LoadInt32(&cDone) == 1
+	})
+	ran := 0
+	for i := range runs {
+		switch n := atomic.LoadInt32(&runs[i]); {
+		case n > 1:
+			res.Err = fmt.Errorf("backlog task %d ran %d times", i, n)
+			return res
+		case n == 1:
+			ran++
+		}
+	}
+	if !ok {
+		select {
+		case <-target:
+		default:
+			close(target) // let the holders go
+		}
+		res.Err = fmt.Errorf("%d of %d tasks handed to the pool before Stop ran within 5 s (pool New(%d,64) saturated at Stop: %d workers wait for backlog task %d, the dispatcher was inside a task of its own)", ran, c.Backlog, c.M, holders, waitIdx)
+		return res
+	}
+	res.NonTrivial = true
+	return res
+}
+
+func genStopBacklog(t *rapid.T) StopBacklog {
+	return StopBacklog{M: rapid.SampledFrom([]int{3, 4, 6, 9}).Draw(t, "m"), Backlog: rapid.SampledFrom([]int{1, 4, 16, 40}).Draw(t, "backlog"),
+		WaitFor: rapid.SampledFrom([]int{-1, -1, 0}).Draw(t, "waitfor"), ReleaseUs: rapid.SampledFrom([]int{0, 200, 2000}).Draw(t, "release")}
+}
+
 func TestCheck(t *testing.T) {
 	r := vlib.NewRunner(t, "C19")
 	vlib.RunCheck(r, vlib.Check[Case]{Name: "taskpool", N: r.Pick(1500, 40000), Gen: genPool, Run: runPool, RecordCurrent: true})
 	vlib.RunCheck(r, vlib.Check[AsyncCase]{Name: "async", N: r.Pick(1500, 40000), Gen: genAsync, Run: runAsync, RecordCurrent: true})
+	vlib.RunCheck(r, vlib.Check[StopBacklog]{Name: "stop-backlog", N: r.Pick(400, 10000), Gen: genStopBacklog, Run: runStopBacklog, RecordCurrent: true})
 	vlib.RunCheck(r, vlib.Check[BurstCase]{Name: "async-bursts", N: r.Pick(1500, 40000), Gen: genBursts, Run: runBursts, RecordCurrent: true})
 	r.Finish()
 }
